@@ -1,15 +1,41 @@
-(* C07 (PLACEHOLDER, to be replaced by the real theorems): the one-shot hash of the model
-   never panics (every index / assert / overflow check of the modelled code is an assert!
-   of the model, so Ok-ness is the no-panic claim). *)
+(* C07: native code stays inside its buffers (the part a model can carry).
+   (1) Every array index, slice bound, split_at, ArrayVec::push and capacity-dependent write of the
+       modelled glue code is an `assert!` of the model, so the `Ok` of the C01 / C02 / C03 / C09
+       theorems is the statement "no index is out of range, for any input".
+   (2) Footprints: the kernel models produce exactly 32 bytes per hashed input, exactly 64 bytes per
+       extended-output block, and a fill exactly the requested bytes.
+   Statements only; proofs in Proofs/{C01P,C04P,XofP}.v.  What the native loads and stores really
+   touch, and the assembly's register discipline, is checked by the guard-page / sentinel harness
+   (tools/props/C07.py), not proved: see DESIGN.md. *)
 From Coq Require Import NArith List Bool.
-From V Require Import Base.Res Base.Word Spec.Compress Spec.Tree Spec.Blake3 Model.Portable Model.Platform Model.RsWide Proofs.FormulasP Proofs.C01P gen.GenFormulas.
+From V Require Import Base.Res Base.Word Spec.Tree Spec.Blake3 Model.Portable Model.Platform Model.RsChunk Model.RsWide
+  Model.RsXof Proofs.C01P Proofs.XofP Proofs.C04P.
 Import ListNotations.
 Open Scope N_scope.
 
-Theorem C07_hash_ok : forall p, PlatformOK p -> forall input,
-  len input < 2 ^ 64 -> is_ok (rs_hash p input) = true.
-Proof.
-  intros p Hp input H. rewrite (rs_hash_spec p Hp input H). reflexivity.
-Qed.
+Theorem C07_one_shot_indices_in_bounds : forall p, PlatformOK p -> forall input, len input < 2 ^ 64 ->
+  is_ok (rs_hash p input) = true.
+Proof. intros p H input Hl. rewrite (rs_hash_spec p H input Hl). reflexivity. Qed.
 
-Print Assumptions C07_hash_ok.
+Theorem C07_hash_many_footprint : forall inputs key ctr incr fl fs fe cap outs,
+  hash_many inputs key ctr incr fl fs fe cap = Ok outs ->
+  length outs = length inputs /\ N.of_nat (length inputs) <= cap.
+Proof. exact hash_many_footprint. Qed.
+
+Theorem C07_xof_many_footprint : forall cv block bl fl, length cv = 8%nat -> length block = 64%nat -> forall n ctr bs,
+  xof_many_loop compress_xof cv block bl ctr fl n = Ok bs -> length bs = (64 * n)%nat.
+Proof. exact xof_many_footprint. Qed.
+
+Theorem C07_fill_footprint : forall p, PlatformOK p -> forall r o pos n,
+  Rd r o pos -> pos + n <= 2 ^ 64 - 1 ->
+  exists r' bs, reader_fill p r n = Ok (r', bs) /\ length bs = N.to_nat n.
+Proof. exact reader_fill_footprint. Qed.
+
+Example C07_nonvacuous :
+  exists outs, hash_many [repeat 1 64; repeat 2 64; repeat 3 64] Spec.Compress.IV 0 true 0 1 2 3 = Ok outs /\ length outs = 3%nat.
+Proof. vm_compute. eexists. split; reflexivity. Qed.
+
+Print Assumptions C07_one_shot_indices_in_bounds.
+Print Assumptions C07_hash_many_footprint.
+Print Assumptions C07_xof_many_footprint.
+Print Assumptions C07_fill_footprint.
